@@ -109,6 +109,9 @@ func recacheAggregatorContext(ctx sdk.Context, agc *aggregator.AggregatorContext
 		p = recentParamsMap[prev]
 		agc.SetParams(p)
 		setCommonParams(p)
+		// there is no block to replay, but the rounds of the current block still have to be
+		// prepared, exactly as the EndBlock of the previous block did on a node that kept running.
+		agc.PrepareRoundEndBlock(uint64(to - 1))
 	} else {
 		prev := int64(0)
 		replayNonces := make(map[string]int32)
@@ -169,6 +172,15 @@ func recacheAggregatorContext(ctx sdk.Context, agc *aggregator.AggregatorContext
 	agc.SetParams(p)
 	setCommonParams(p)
 	c.AddCache(cache.ItemP(*p))
+
+	// a round whose id has already been written to the store is closed (with a final price, or
+	// by carrying the previous price forward at the window end or at a validator set change),
+	// even if the replayed messages cannot reproduce that: the messages of a finalized round are
+	// not kept, and a forced seal leaves no message at all. Without this the restarted node
+	// would accept submissions for, and later seal, a round that the other nodes closed already.
+	agc.SealRoundsWithStoredPrice(func(tokenID uint64) uint64 {
+		return k.GetNextRoundID(ctx, tokenID)
+	})
 
 	return true
 }
